@@ -18,7 +18,7 @@
     from the property text).  The correspondence run evaluates the recorder
     instance of the same [process_msg] against sio.Crew on every check. *)
 From Coq Require Import List String Permutation.
-From Sheens Require Import Model.SioRecorder Spec.SioSpec Proofs.SioRouting Proofs.SioRecorderFacts.
+From Sheens Require Import Model.SioRecorder Spec.SioSpec Proofs.SioRouting Proofs.SioRecorderFacts Proofs.SioStrip.
 Import ListNotations.
 Open Scope string_scope.
 
@@ -83,6 +83,25 @@ Proof.
   intros fuel h c store.
   exact (run_history_wf S react decode_src resolves src_eqb ord fuel h (init_crew S) [] c store (init_wf S)).
 Qed.
+
+(** a modelling decision made explicit: an update that names a service
+    machine (timers, captain) and carries no state ([svc_noop]) is dropped
+    before the operation is carried out ([strip_op], applied by the captain's
+    branch of [present]).  For every crew and operation: what is left is
+    ordinary (and so covered by the theorems above) whenever every update is
+    ordinary or such a no-op and every delete is ordinary; stripping twice is
+    stripping once; an operation of such no-ops only leaves the crew - the
+    whole record - as it is; and an ordinary operation, the only kind modelled
+    before, is not touched *)
+Theorem C14_service_update_without_state_is_noop : forall (c : crew S) (op : crew_op S),
+  (forallb (fun u => negb (is_service (fst u)) || svc_noop S u) (op_update S op) = true ->
+   forallb (fun d => negb (is_service d)) (op_delete S op) = true ->
+   op_ordinary S (strip_op S op) = true)
+  /\ strip_op S (strip_op S op) = strip_op S op
+  /\ (forallb (svc_noop S) (op_update S op) = true -> op_delete S op = [] ->
+      do_op S resolves c (strip_op S op) = c)
+  /\ (op_ordinary S op = true -> strip_op S op = op).
+Proof. exact (service_update_without_state_is_noop S resolves). Qed.
 End C14.
 
 Print Assumptions C14_exactly_once.
@@ -90,6 +109,7 @@ Print Assumptions C14_at_most_once_only_named.
 Print Assumptions C14_feedback.
 Print Assumptions C14_reported_once.
 Print Assumptions C14_reachable_crews_wf.
+Print Assumptions C14_service_update_without_state_is_noop.
 
 (** non-vacuity, on the instance the correspondence run uses: machines a
     (forwards), b (reverses) and the machine with the empty id; a message to
@@ -123,4 +143,44 @@ Proof.
       vm_compute. split; reflexivity.
   - exfalso. vm_compute in H. injection H as <- <-. vm_compute in HP. discriminate.
   - exfalso. vm_compute in H. injection H as <- <-. vm_compute in HP. discriminate.
+Qed.
+
+(** non-vacuity of the last theorem, on the same instance: a message to the
+    captain that gives the timers machine a specification and no state is a
+    crew operation which is not ordinary; stripped it is empty; [present]
+    leaves the crew (three machines, pending changes) exactly as it is and
+    reports the captain as having seen the message; so does the whole
+    [process_msg] but for the change cache it flushes, in one round.  The same
+    update beside one of an ordinary machine: only the latter is carried out. *)
+Definition c14_svc_spec : json :=
+  JObj [("inline", JObj [("doc", JStr "fwd"); ("name", JStr "L9")])].
+Definition c14_svc_msg : json :=
+  JObj [("to", JStr "captain");
+        ("update", JObj [("timers", JObj [("spec", c14_svc_spec)])])].
+Definition c14_svc_mixed_msg : json :=
+  JObj [("to", JStr "captain");
+        ("update", JObj [("b", JObj [("spec", c14_svc_spec)]); ("timers", JObj [("spec", c14_svc_spec)])])].
+
+Example C14_service_update_nonvacuous :
+  exists c store op,
+    r_run_history 10 (init_crew rcfg, []) c14_setup = Done (c, store)
+    /\ List.length (machines rcfg c) = 3
+    /\ as_crew_op rcfg rdecode c14_svc_msg = IsOp op
+    /\ op_ordinary rcfg op = false
+    /\ forallb (svc_noop rcfg) (op_update rcfg op) = true
+    /\ strip_op rcfg op = mk_op [] []
+    /\ present rcfg rreact rdecode rresolves c c14_svc_msg captain_id = Done (c, true, None)
+    /\ match r_process_msg 10 c c14_svc_msg with
+       | Done (c', res) => machines rcfg c' = machines rcfg c
+                           /\ map (rd_recips rcfg) (res_trace rcfg res) = [["captain"]]
+                           /\ res_emitted rcfg res = []
+       | _ => False
+       end
+    /\ present rcfg rreact rdecode rresolves c c14_svc_mixed_msg captain_id
+       = Done (set_machine rcfg rresolves c "b" (Some (mk_rcfg "L9" RFwd)) None, true, None).
+Proof.
+  destruct (r_run_history 10 (init_crew rcfg, []) c14_setup) as [[c store]| |] eqn:H;
+    try (vm_compute in H; discriminate).
+  exists c, store. vm_compute in H. injection H as <- <-.
+  eexists. vm_compute. repeat split.
 Qed.
